@@ -41,9 +41,9 @@ func vfChars(s string) []string {
 // concretisation of the symbols of the model; labels use pairwise disjoint letters apart from '.', '*'
 var vfStLabels = []map[string]string{
 	{}, // identity
-	{"a": "alpha", "b": "bravo", "c": "charlie", "x": "example", "y": "yankee", "X": "Q"},
-	{"a": "sip-1", "b": "sip-2", "c": "sip-3", "x": "net", "y": "org", "X": "-"},
-	{"a": "A", "b": "B", "c": "C", "x": "co.uk", "y": "de", "X": "0"},
+	{"a": "alpha", "b": "bravo", "c": "charlie", "x": "example", "y": "yankee", "X": "Q", "z": "zulu"},
+	{"a": "sip-1", "b": "sip-2", "c": "sip-3", "x": "net", "y": "org", "X": "-", "z": "zz"},
+	{"a": "A", "b": "B", "c": "C", "x": "co.uk", "y": "de", "X": "0", "z": "Z"},
 }
 
 func vfStConc(sym []string, lab map[string]string) string {
